@@ -40,7 +40,10 @@ META = {
                 'constructors stay hand-modelled / assumed (tied by the correspondence run)',
                 'SQL ORDER BY is specified as "some sorted permutation" (ties unspecified); SQLite is observed, not verified'],
     'modelled': ['SQLite (row order without ORDER BY = rowid order; NULLS FIRST ascending)', 'CPython list.sort (stable, reverse keeps ties in order)'],
-    'assumptions': ['joins on InheritableSQLObject hierarchies (2-3 levels, every level may declare one-to-many / single / many-to-many joins with a '
+    'assumptions': ['a one-sided RelatedJoin / SQLRelatedJoin may be added to an existing class at run time (sqlmeta.addJoin) in the middle of a '
+                    'history, after the classes were used; the inheritance scenario also runs through a transaction on a file-backed database '
+                    '(objects fetched with connection=tx, raw SELECTs inside the transaction)',
+                    'joins on InheritableSQLObject hierarchies (2-3 levels, every level may declare one-to-many / single / many-to-many joins with a '
                     'plain class; objects are used through their most derived class, so ancestor joins go through the forwarding accessors and '
                     'add/remove methods) are checked by the raw-SELECT oracle only; the Lean model has no inheritance',
                     'orderBy items are attribute names with optional "-" (no SQL expressions)', 'ids are integers; objects are not per-connection instances'],
@@ -64,7 +67,8 @@ def py_order(keys):
 
 def build(schema):
     key = json.dumps(schema)
-    if key in _built:
+    has_late = any(a.get('late') for a in schema['accessors'])
+    if key in _built and not has_late:     # a run-time addJoin changes the classes: build them afresh every time
         return _built[key]
     sqlo.setup()
     from sqlobject import SQLObject, ForeignKey, IntCol, RelatedJoin, SQLRelatedJoin, MultipleJoin, SQLMultipleJoin, SingleJoin
@@ -80,6 +84,8 @@ def build(schema):
     for acc in schema['accessors']:
         d = dicts[acc['cls']]
         ob = py_order(acc['order'])
+        if acc.get('late'):
+            continue            # added with sqlmeta.addJoin() in the middle of the history ('latejoin' op)
         if acc['kind'] == 'fk':
             col = 'f%d_id' % acc['f']
             d[acc['name'] + 'l'] = MultipleJoin(NAMES[acc['k']], joinColumn=col, orderBy=ob)
@@ -104,7 +110,9 @@ def build(schema):
         cls.createTable()
     info = {}
     for acc in schema['accessors']:
-        if acc['kind'] == 'rel':
+        if acc['kind'] == 'rel' and acc.get('late'):
+            info[acc['name']] = ('lt%d' % acc['t'], 'ca' if acc['own'] else 'cb', 'cb' if acc['own'] else 'ca')
+        elif acc['kind'] == 'rel':
             j = [j for j in out[acc['cls']].sqlmeta.joins if j.joinMethodName == acc['name'] + 'l'][0]
             info[acc['name']] = (j.intermediateTable, j.joinColumn, j.otherColumn)
     made = set()
@@ -157,6 +165,15 @@ def gen_schema(rng):
         if sides == 'both':
             accessors.append({'kind': 'rel', 'cls': k2, 'other': k1, 't': t, 'own': 0, 'name': 'r%db' % t,
                               'order': rng.choice(ORDERS), 'default_names': default_names})
+    if rng.random() < 0.3:
+        # a one-sided related join that is added to its (existing) class at run time
+        sided = {}
+        for a in accessors:
+            if a['kind'] == 'rel':
+                sided.setdefault(a['t'], []).append(a)
+        cands = [v[0] for v in sided.values() if len(v) == 1 and not v[0]['default_names']]
+        if cands:
+            rng.choice(cands)['late'] = True
     return {'classes': classes, 'accessors': accessors}
 
 
@@ -205,6 +222,21 @@ def gen_history(rng, schema, length):
             i = rng.choice(live[k])
             ops.append(['del', k, i])
             # which ids survive is only known after running; the runner filters stale ids
+    for a in rels:
+        if a.get('late'):
+            # the classes are in use (an object of the join's other class is created and destroyed) before the join is added
+            k = a['other']
+            pos = rng.randrange(len(ops) // 3, max(len(ops) // 3 + 1, 2 * len(ops) // 3))
+            i = nextid[k]
+            nextid[k] += 1
+            j = nextid[k]
+            nextid[k] += 1
+            own = nextid[a['cls']]
+            nextid[a['cls']] += 1
+            # ... and afterwards it is used: a fresh pair is linked (from the declaring side), the partner destroyed
+            ops[pos:pos] = [['new', k, i, None, None], ['del', k, i], ['latejoin', a['name']],
+                            ['new', a['cls'], own, 1, 1], ['new', k, j, 2, 2], ['add', a['name'], own, j, rng.choice(['l', 'q'])]]
+            ops.insert(rng.randrange(pos + 6, len(ops) + 1), ['del', k, j])
     return ops
 
 
@@ -227,6 +259,7 @@ class Runner:
             self.conn.query('DELETE FROM %s' % t)
         self.conn.cache.clear()
         self.accs = {a['name']: a for a in schema['accessors']}
+        self.added = set()    # late joins already added with sqlmeta.addJoin()
         self.held = {}        # instances stay referenced: a pending assignment lives in the instance
         self.pending = {}     # (cls, id) -> model lines of assignments not yet written (lazyUpdate classes)
         self.shown = {}       # (cls, id) -> {attr index: value the instance must show while it is pending}
@@ -284,9 +317,26 @@ class Runner:
                 if (k, i) not in live or not self.lazy(k):
                     return None, None
                 return self.flush((k, i)), 'ok'
+            if op[0] == 'latejoin':
+                from sqlobject import RelatedJoin, SQLRelatedJoin
+                acc = self.accs[op[1]]
+                if not acc.get('late') or acc['name'] in self.added:
+                    return None, None
+                tbl, jc, oc = self.info[acc['name']]
+                kw = dict(intermediateTable=tbl, joinColumn=jc, otherColumn=oc, orderBy=py_order(acc['order']), createRelatedTable=False)
+                cls = self.classes[acc['cls']]
+                cls.sqlmeta.addJoin(RelatedJoin(NAMES[acc['other']], joinMethodName=acc['name'] + 'l', addRemoveName=acc['name'].upper(), **kw))
+                cls.sqlmeta.addJoin(SQLRelatedJoin(NAMES[acc['other']], joinMethodName=acc['name'] + 'q',
+                                                   addRemoveName=acc['name'].upper() + 'Q', **kw))
+                self.added.add(acc['name'])
+                return [], 'ok'
             if op[0] in ('add', 'rem'):
                 _, name, a, b, via_q = op
                 acc = self.accs[name]
+                if acc.get('late') and name not in self.added:
+                    return None, None
+                if acc.get('late') and via_q == 'n':
+                    via_q = 'l'
                 if (acc['cls'], a) not in live or (acc['other'], b) not in live:
                     return None, None
                 obj = self.classes[acc['cls']].get(a)
@@ -336,6 +386,8 @@ class Runner:
         got_new = {}
         live = self.live()
         for acc in self.schema['accessors']:
+            if acc.get('late') and acc['name'] not in self.added:
+                continue
             for (k, i) in live:
                 if k != acc['cls']:
                     continue
@@ -677,7 +729,12 @@ def _hi_run(ctx, schema, ops, via_tx):
                 return tuple(out)
             return kf
         for h in live_h():
-            obj = classes['P'].get(h, **ckw)
+            try:
+                obj = classes['P'].get(h, **ckw)
+            except Exception as e:
+                ctx.oracle_fail('C13:inherit:load-raises:%s' % sqlo.exc_name(e), 'P.get(%d) through the %s raised %r although the row is there'
+                                % (h, 'transaction' if via_tx else 'connection', e), case)
+                return
             if type(obj).__name__ != levels[leaf_of[h]]:
                 ctx.oracle_fail('C13:inherit:wrong-class', 'P.get(%d) loads as %s, created as %s' % (h, type(obj).__name__, levels[leaf_of[h]]), case)
                 return
@@ -713,7 +770,11 @@ def _hi_run(ctx, schema, ops, via_tx):
                     ctx.oracle_fail('C13:inherit:single-join', 'one%s of %s %d gives %r, referencing rows %r' % (lv, type(obj).__name__, h, one, raw_fk), case)
                     return
         for x in live_x():
-            xo = classes['X'].get(x, **ckw)
+            try:
+                xo = classes['X'].get(x, **ckw)
+            except Exception as e:
+                ctx.oracle_fail('C13:inherit:load-raises:%s' % sqlo.exc_name(e), 'X.get(%d) raised %r' % (x, e), case)
+                return
             for lv in levels:
                 if lv not in schema['joins']:
                     continue
@@ -736,7 +797,7 @@ def run_inherit(ctx):
         for c in (data if isinstance(data, list) else [data]):
             hi_run(ctx, c['schema'], c['ops'])
             hi_run(ctx, c['schema'], c['ops'], via_tx=True)
-    for n in range(ctx.budget(120, 2500)):
+    for n in range(ctx.budget(100, 2500)):
         schema, ops = hi_gen(ctx.rng)
         hi_run(ctx, schema, ops, via_tx=(n % 3 == 2))
 
@@ -747,7 +808,7 @@ def run(ctx):
     jobs = []
     for c in corpus_cases():
         jobs.append((c['schema'], c['ops']))
-    nh = ctx.budget(500, 9000)
+    nh = ctx.budget(360, 9000)
     for _ in range(nh):
         schema = gen_schema(rng)
         jobs.append((schema, gen_history(rng, schema, rng.choice([8, 14, 20, 25]))))
